@@ -4,6 +4,7 @@
 import BumpverVerif.Driver.Common
 import BumpverVerif.Model.V2Patterns
 import BumpverVerif.Model.V2Version
+import BumpverVerif.Model.PatAst
 open Lean
 namespace BV.Drv
 
@@ -84,6 +85,20 @@ def getFlags (j : Json) : Except String IncrFlags := do
 
 def handleV2 : Handler := fun op j =>
   match op with
+  | "ast_tie" => some do
+    -- does the structural (tree) reading of the pattern agree with the string pipeline on this pattern and record?
+    let p ← getStr j "pattern"
+    let vi ← getVinfo j "vinfo"
+    pure (match tokenize p with
+      | none => Json.mkObj [("tokenized", Json.bool false)]
+      | some t =>
+        let ceq := match t.compile, compileRe p with
+          | some a, some b => Re.beq a b
+          | _, _ => false
+        let req := match formatVersion vi p with
+          | .ok s => s == t.render vi
+          | .error _ => false
+        Json.mkObj [("tokenized", Json.bool true), ("compile_eq", Json.bool ceq), ("render_eq", Json.bool req)])
   | "parse" => some do
     let v ← getStr j "version"
     let p ← getStr j "pattern"
